@@ -68,7 +68,13 @@ def run(chk, tier):
     ncs, cfound = consumed.run(chk, P, ["distances.c", "topology-xml.c"])
     chk.floor("R-CONSUMED", "call sites of ownership-taking functions", ncs, 6)
     chk.floor("R-CONSUMED", "ownership-taking functions discovered", len(cfound), 2)
-    chk.decided += ['arrays handed to a function that takes ownership of them (hwloc_internal_distances_add: attached on success, freed on failure) are not freed again by the caller',
+    chk.rule("R-SCANZERO", "a loop that examines every element of a caller-supplied array (pointer parameter indexed by the loop variable, bounded by an integer parameter) starts at element 0, "
+             "unless the function deals with the skipped elements elsewhere (A[0], A[i-1], *A)")
+    import scanzero
+    nsz = scanzero.run(chk, P, ["distances.c", "memattrs.c", "cpukinds.c"])
+    chk.floor("R-SCANZERO", "loops over caller-supplied arrays", nsz, 3)
+    chk.decided += ['the validation of the objects handed to hwloc_distances_add_values() covers every slot (a NULL object is rejected wherever it is)',
+                    'arrays handed to a function that takes ownership of them (hwloc_internal_distances_add: attached on success, freed on failure) are not freed again by the caller',
                     'objs, indexes, different_types and values are compacted together when objects disappear',
                     'a distances handle is not used again after a backend call that released it failed',
                     "an invalid depth (hwloc_get_depth_type failure) is rejected with EINVAL before anything is removed or returned",
